@@ -4,6 +4,7 @@ import SlipVerif.Driver.Util
 /- line protocol for C11:   flav run vm=<m,…> <token>*
    tokens, in chronological order (no blanks inside a token):
      F:<name>:<comp,…>:<slot=default;…>   defflavor (default `-` = none)
+     F:<name>:<comp,…>:<slot=…>:<incl,…>  the same with :included-flavors (appended to the components)
      M:<flavor>:<p|b|a|w>:<msg>:<id>      defmethod / defwhopper (the whopper body continues once)
      W:<flavor>:<msg>:<id>:<d,…>          defwhopper whose body makes one (continue-whopper (+ arg d)) per d
      A:<flavor>:<msg>:<arg>               observe (send inst msg arg), events with arguments
@@ -58,6 +59,13 @@ def parseTok (s : String) : Option Tok :=
       let cs ← natList? cs
       let sl ← slotList? sl
       some (.form (.defflavor n cs sl))
+  | ["F", n, cs, sl, inc] => do
+      -- :included-flavors of a non-abstract flavor: inherited after the written components
+      let n ← n.toNat?
+      let cs ← natList? cs
+      let sl ← slotList? sl
+      let inc ← natList? inc
+      some (.form (.defflavor n (cs ++ inc) sl))
   | ["M", fl, k, m, id] => do
       let fl ← fl.toNat?
       let k ← kind? k
